@@ -336,13 +336,13 @@ func hexList(xs []string) string {
 	return "[" + strings.Join(hs, ",") + "]"
 }
 
-// C05.pgsession <yamlhex> <n> ev…   with ev = q:<hex sql> (simple query) | p:<hex sql> (Parse, unnamed) | c (CommandComplete from the database)
-// result: ok <per event: F|E|M|X|c|- followed by =<front of the pending queue before a `c`, or the queue after a q>>…
+// C05.pgsession <cfg tokens as in C05.handle> <n> ev…   with ev = q:<stmt token> (simple query) | p:<stmt token> (Parse, unnamed; implementation only) | c (CommandComplete from the database)
+// result: ok then per event  F|E|M|X =<pending queue after the event>   or   c@<front entry the response is processed with>=<queue afterwards> (c- when the queue is empty)
 func opPgSession(a []string) string {
-	yaml := core.UnHex(a[0])
-	n := core.Atoi(a[1])
-	evs := a[2 : 2+n]
-	censor, err := newCensor(yaml)
+	cfg, i := parseCfgArgs(a)
+	n := core.Atoi(a[i])
+	evs := a[i+1 : i+1+n]
+	censor, err := newCensor(yamlOf(cfg))
 	if err != nil {
 		return "cfgerr"
 	}
@@ -358,16 +358,14 @@ func opPgSession(a []string) string {
 	var out []string
 	for _, ev := range evs {
 		switch {
-		case strings.HasPrefix(ev, "q:"):
-			q := string(core.UnHex(ev[2:]))
-			r := d.send(pgSimpleQuery(q))
-			out = append(out, r+"="+hexList(d.pending()))
-			if r == "X" {
-				return "ok " + strings.Join(out, " ")
+		case strings.HasPrefix(ev, "q:"), strings.HasPrefix(ev, "p:"):
+			q := rawOf(ev[2:])
+			var r string
+			if ev[0] == 'q' {
+				r = d.send(pgSimpleQuery(q))
+			} else {
+				r = d.send(pgParse("", q))
 			}
-		case strings.HasPrefix(ev, "p:"):
-			q := string(core.UnHex(ev[2:]))
-			r := d.send(pgParse("", q))
 			out = append(out, r+"="+hexList(d.pending()))
 			if r == "X" {
 				return "ok " + strings.Join(out, " ")
